@@ -354,8 +354,8 @@ def reach(mods, names):
     return found
 
 
-STORM_PER_SLICE = 5     # crashes with one normalised key inside one slice before its refinement stops
-STORM_PER_KEY = 20      # crashes with one normalised key in the whole run before other slices stop at their first hit
+STORM_PER_SLICE = 3     # crashes with one normalised key inside one slice before its refinement stops
+STORM_PER_KEY = 12      # crashes with one normalised key in the whole run before other slices stop at their first hit
 
 
 def _refine(arg):
@@ -443,9 +443,14 @@ def run_sweeps(ctx, mods, judge, keyfn, crashfn, slice_size=8192, timeout=3600):
     # refinement of the slices that killed their child: depth-first bisection inside one worker per slice, with a
     # crash-storm breaker (a family where every evaluation dies must not cost one fork chain per evaluation)
     stormed, keycount = set(), {}
-    batch = 4 * farm.NPROC
-    for i in range(0, len(crashed), batch):
-        part = crashed[i:i + batch]
+    # a small first batch learns the storming keys early; later slices then stop at their first hit
+    bounds = [0, min(len(crashed), farm.NPROC)]
+    while bounds[-1] < len(crashed):
+        bounds.append(min(len(crashed), bounds[-1] + 4 * farm.NPROC))
+    for i, j in zip(bounds, bounds[1:]):
+        part = crashed[i:j]
+        if not part:
+            continue
         stats['crash_refinement_rounds'] += 1
         rr = farm.pmap(_refine, [(strip(c), crashfn, frozenset(stormed), ctx.scratch) for c in part])
         for c, r in zip(part, rr):
